@@ -486,13 +486,64 @@ func (s *Scanner) Scan(tree *ast.AST) *ScanResult {
 	}
 
 	for _, stmt := range tree.Statements {
-		s.scanStatement(stmt, result)
+		s.scanNode(stmt, result)
 	}
 
 	// Update counts
 	s.updateCounts(result)
 
 	return result
+}
+
+// scanNode inspects every node reachable from n - every clause of every nested statement and every
+// operand of every expression - so that a payload is reported wherever it occurs, not only in the
+// WHERE/HAVING clause of a top-level statement.
+func (s *Scanner) scanNode(n ast.Node, result *ScanResult) {
+	if n == nil {
+		return
+	}
+	ast.Inspect(n, func(node ast.Node) bool {
+		switch e := node.(type) {
+		case *ast.BinaryExpression:
+			if e == nil {
+				return false
+			}
+			s.checkBinaryExpression(e, result)
+		case *ast.FunctionCall:
+			if e == nil {
+				return false
+			}
+			s.checkFunctionCall(e, result)
+		case *ast.SetOperation:
+			if e == nil {
+				return false
+			}
+			if strings.ToUpper(e.Operator) == "UNION" {
+				s.checkUnionInjection(e, result)
+			}
+		}
+		return true
+	})
+}
+
+// checkBinaryExpression reports a tautology or an OR-with-tautology at this node only
+// (operands are reached by the traversal).
+func (s *Scanner) checkBinaryExpression(expr *ast.BinaryExpression, result *ScanResult) {
+	if s.isTautology(expr) {
+		finding := Finding{
+			Severity:    SeverityCritical,
+			Pattern:     PatternTautology,
+			Description: "Always-true condition detected (tautology)",
+			Risk:        "Authentication bypass, data extraction",
+			Suggestion:  "Remove or replace with proper condition",
+		}
+		if s.shouldInclude(finding.Severity) {
+			result.Findings = append(result.Findings, finding)
+		}
+	}
+	if strings.ToUpper(expr.Operator) == "OR" {
+		s.checkOrInjection(expr, result)
+	}
 }
 
 // ScanSQL analyzes raw SQL string for injection patterns using regex-based detection.
@@ -761,8 +812,14 @@ func (s *Scanner) checkUnionInjection(stmt *ast.SetOperation, result *ScanResult
 		// Check for NULL placeholders (common in UNION injection)
 		nullCount := 0
 		for _, col := range rightSelect.Columns {
-			if ident, ok := col.(*ast.Identifier); ok {
-				if strings.ToUpper(ident.Name) == "NULL" {
+			switch c := col.(type) {
+			case *ast.Identifier:
+				if strings.ToUpper(c.Name) == "NULL" {
+					nullCount++
+				}
+			case *ast.LiteralValue:
+				// the parser represents the NULL keyword as a literal of type "null"
+				if c != nil && (c.Value == nil || strings.EqualFold(c.Type, "null")) {
 					nullCount++
 				}
 			}
@@ -827,6 +884,19 @@ func (s *Scanner) scanFunctionCall(fn *ast.FunctionCall, result *ScanResult) {
 	if fn == nil {
 		return
 	}
+	s.checkFunctionCall(fn, result)
+
+	// Recursively check function arguments
+	for _, arg := range fn.Arguments {
+		s.scanExpressionForDangerousFunctions(arg, result)
+	}
+}
+
+// checkFunctionCall reports a time-delay or dangerous function at this call only.
+func (s *Scanner) checkFunctionCall(fn *ast.FunctionCall, result *ScanResult) {
+	if fn == nil {
+		return
+	}
 
 	funcName := strings.ToUpper(fn.Name)
 
@@ -874,11 +944,6 @@ func (s *Scanner) scanFunctionCall(fn *ast.FunctionCall, result *ScanResult) {
 		if s.shouldInclude(finding.Severity) {
 			result.Findings = append(result.Findings, finding)
 		}
-	}
-
-	// Recursively check function arguments
-	for _, arg := range fn.Arguments {
-		s.scanExpressionForDangerousFunctions(arg, result)
 	}
 }
 
